@@ -201,7 +201,17 @@ int main(int argc, char** argv) {
   t4.group = "T4";
   t4.chunk = 1;
   t4.rule = "+inf, -inf, NaN at each of 6 positions of a small document: Serialize == kSerErrorInfinity and Dump() == \"\"";
+  // T5: arrays that pack numbers of maximal text length so that every amount of free space in the
+  // write buffer occurs when a long number is emitted (the serializer reserves a fixed amount per number)
+  static const char* kLong[6] = {"-0.0000012345678901234567", "-1.7976931348623157e+308", "-2.2250738585072014e-308", "-9223372036854775808", "18446744073709551615", "-123456789012345680000.0"};
+  vr::Family t5;
+  t5.name = "T5_number_packing";
+  t5.count = 6ull * 120 * 120;
+  t5.group = "T5";
+  t5.chunk = 64;
+  t5.rule = "arrays [filler x F, L, trailer x (M-F-1)] for 1 <= M <= 120, 0 <= F < M, filler 1.2345678901234567 (18 bytes), L one of 6 longest number spellings (25-byte double in [1e-6,1e-5), extreme exponents, INT64_MIN, UINT64_MAX, 1.2e20): under ASan the exact-size write buffer makes any under-reservation a crash";
   fams.push_back(g1);
+  fams.push_back(t5);
   fams.push_back(t2);
   fams.push_back(t3);
   fams.push_back(t4);
@@ -231,6 +241,33 @@ int main(int argc, char** argv) {
         return;
       }
       check_doc(doc, r.v, ctx, text);
+      return;
+    }
+    if (nm[1] == '5') {
+      unsigned F = (unsigned)(idx % 120);
+      idx /= 120;
+      unsigned M = (unsigned)(idx % 120) + 1;
+      unsigned li = (unsigned)(idx / 120);
+      if (F >= M) {
+        ctx.skip();
+        return;
+      }
+      std::string text = "[";
+      for (unsigned i = 0; i < M; i++) {
+        if (i) text += ",";
+        text += i == F ? kLong[li] : (i < F ? "1.2345678901234567" : "0.5");
+      }
+      text += "]";
+      ref::Result r = ref::parse(text);
+      if (ctx.want_sample) ctx.sample("M=" + std::to_string(M) + " F=" + std::to_string(F) + " L=" + kLong[li]);
+      ctx.nontriv();
+      Document doc;
+      doc.Parse(text);
+      if (!r.ok || doc.HasParseError()) {
+        ctx.violation("harness", "harness_generator", text.substr(0, 100), "harness error: packing text invalid");
+        return;
+      }
+      check_doc(doc, r.v, ctx, "packing M=" + std::to_string(M) + " F=" + std::to_string(F) + " L=" + kLong[li]);
       return;
     }
     if (nm[1] == '2') {
@@ -341,6 +378,14 @@ int main(int argc, char** argv) {
       bool ok = serialize_all_states(d, out, ctx, "nonfinite", &err);
       if (ok || err != kSerErrorInfinity) ctx.violation("nonfinite_accepted", "ser_nonfinite_code", "nonfinite", "Serialize of a document holding a non-finite double returned %d (output '%s')", (int)err, out.c_str());
       if (!d.Dump().empty()) ctx.violation("nonfinite_dump", "ser_nonfinite_dump", "nonfinite", "Dump() of a document holding a non-finite double returned '%s'", d.Dump().c_str());
+      // a failed serialisation must leave nothing behind: the next documents serialise normally
+      {
+        Document good;
+        good.Parse("{\"k\":[1,2,{\"m\":[true,null]}],\"s\":\"x\"}");
+        ref::Value gv = ref::parse(std::string("{\"k\":[1,2,{\"m\":[true,null]}],\"s\":\"x\"}")).v;
+        check_doc(good, gv, ctx, "document serialised right after a failed (non-finite) serialisation");
+        check_doc(good, gv, ctx, "second document after a failed serialisation");
+      }
     }
   };
   if (args.replay) return R.replay_one(fams, check);
